@@ -590,3 +590,114 @@ class BigGen(Gen):
             st["nc"] = rng.choice([1, 3, 10, 11, 16])
             st.pop("fail", None)
         return st
+
+
+class ScaleGen(Gen):
+    """Directed scale scenarios (unit kind `huge`): one thing is made large - invocations per request (64 ... 1500),
+    elements per map, spawners waiting for room at the same time (10 ... 130), pools (12, so that pool indices get
+    two digits), the length / alphabet of group names, stop(n) - and everything is then drained in a seeded order."""
+
+    TEMPLATES = ["apply_many", "map_many", "waiters", "names", "start_stop", "pools", "equal_bounds"]
+    NAMES = ["x" * 300, "n" * 5000, "名前-группа", "with space", "tab\there", "new\nline", " lead", "trail ",
+             "apply-work-group-10", "0", "-", "--help", "a/b\\c", "é" * 64, "g" + "́" * 10]
+
+    def __init__(self, seed: int, prop: str, clean: bool = True):
+        super().__init__(seed, prop, clean)
+        self.template = self.rng.choice(self.TEMPLATES)
+        self.queue = None
+        self.drained = 0
+        self.tail = None
+
+    def make_config(self):
+        rng = self.rng
+        t = self.template
+        cb = rng.choice([None, "s", "a"])
+        if t == "start_stop":
+            p = {"cls": "S", "size": rng.choice([None, 64, 100, 12]), "fk": "sync", "fn": 0, "ash": rng.choice(ASH), "ecb": cb,
+                 "ccb": rng.choice([None, "s"]), "sc": [{"g": 1}]}
+            return {"hmask": 0, "pools": [p]}
+        if t == "pools":
+            return {"hmask": rng.choice([0, 5]), "many_pools": True,
+                    "pools": [{"cls": "T", "size": rng.choice([None, 2, 3])} for _ in range(12)]}
+        size = {"apply_many": rng.choice([None, 1, 10, 64, 100, 128]), "map_many": rng.choice([None, 1, 10, 100]),
+                "waiters": rng.choice([1, 1, 2]), "names": rng.choice([None, 2]), "equal_bounds": rng.choice([10, 11, 16, 32])}[t]
+        return {"hmask": rng.choice([0, 3]), "pools": [{"cls": "T", "size": size}]}
+
+    def _initial(self, sim):
+        rng = self.rng
+        t = self.template
+        q = []
+        cb = rng.choice([None, "s", "a"])
+        if t == "apply_many":
+            n = rng.choice([64, 65, 100, 128, 256, 1000, 1024, 1500])
+            q.append({"op": "spawn", "p": 0, "r": 1, "kind": "apply", "fk": "sync", "num": n, "ash": rng.choice(ASH), "ecb": cb,
+                      "sc": [{"g": 0}] if n > 300 else [{"g": rng.choice([0, 0, 1])}]})
+        elif t == "map_many":
+            n = rng.choice([64, 100, 128, 257, 1000, 1025])
+            q.append({"op": "spawn", "p": 0, "r": 1, "kind": rng.choice(["map", "starmap", "doublestarmap"]), "fk": "sync",
+                      "elems": [0] * n, "nc": rng.choice([1, 10, 64, 100, n]), "ecb": cb, "itk": rng.choice([0, 1]),
+                      "sc": [{"g": 0}] if n > 300 else [{"g": rng.choice([0, 0, 1])}]})
+        elif t == "waiters":
+            k = rng.choice([10, 33, 64, 65, 130])
+            for i in range(k):
+                q.append({"op": "spawn", "p": 0, "r": i + 1, "kind": rng.choice(["apply", "apply", "map"]), "fk": "sync", "num": 1,
+                          "elems": [0], "nc": 1, "ecb": cb, "sc": [{"g": 1}]})
+                if rng.random() < 0.1:
+                    q.append({"op": "run", "n": rng.choice([1, 3])})
+        elif t == "names":
+            names = rng.sample(self.NAMES, rng.choice([2, 4, 6]))
+            for i, nm in enumerate(names):
+                q.append({"op": "spawn", "p": 0, "r": i + 1, "kind": rng.choice(["apply", "map", "starmap"]), "fk": "sync", "num": 2,
+                          "elems": [0, 0, 0], "nc": 2, "gn": nm, "ecb": cb, "ccb": rng.choice([None, "s"]), "sc": [{"g": 1}]})
+            q.append({"op": "idle"})
+            q.append({"op": "cancel_group", "p": 0, "r": rng.randrange(len(names)) + 1})
+            q.append({"op": "spawn", "p": 0, "r": 90, "kind": "apply", "fk": "sync", "num": 1, "gn": names[0], "sc": [{"g": 1}]})  # duplicate or re-use
+        elif t == "start_stop":
+            n = rng.choice([12, 64, 100, 130])
+            q += [{"op": "spawn", "p": 0, "r": 1, "kind": "start", "num": n}, {"op": "idle"}]
+            for k in (rng.choice([10, 11, 63, 64]), rng.choice([1, 10, 99]), 10 ** 9):
+                q += [{"op": "stop", "p": 0, "n": k}, {"op": "idle"}]
+                if rng.random() < 0.5:
+                    q.append({"op": "spawn", "p": 0, "r": 10 + k % 7, "kind": "start", "num": rng.choice([1, 10, 11])})
+        elif t == "pools":
+            lab = 0
+            for p in range(12):
+                for _ in range(rng.choice([1, 2])):
+                    lab += 1
+                    q.append({"op": "spawn", "p": p, "r": lab, "kind": rng.choice(["apply", "map"]), "fk": "sync", "num": 2,
+                              "elems": [0, 0], "nc": 1, "ecb": cb, "sc": [{"g": 1}]})
+            q.append({"op": "new_pool", "cfg": {"cls": "T", "size": 2}})
+            q.append({"op": "new_pool", "cfg": {"cls": "S", "size": 2, "fk": "sync", "fn": 0, "ash": 0, "ecb": None, "ccb": None, "sc": [{"g": 1}]}})
+        else:  # equal_bounds: num_concurrent == pool size == number of elements (and one off on each side)
+            s = sim.pools[0].size
+            for i, d in enumerate(rng.sample([(0, 0), (1, 0), (0, 1), (-1, 0), (0, -1)], 3)):
+                q.append({"op": "spawn", "p": 0, "r": i + 1, "kind": "map", "fk": "sync", "elems": [0] * (s + d[0]), "nc": s + d[1],
+                          "ecb": cb, "sc": [{"g": 1}]})
+                q.append({"op": "idle"})
+        q.append({"op": "idle"})
+        return q
+
+    def next_step(self, sim):
+        if sim.hit_cap:
+            return None
+        rng = self.rng
+        if self.queue is None:
+            self.queue = self._initial(sim)
+        if self.queue:
+            return self.queue.pop(0)
+        if self.tail is None:
+            keys = sim.pending_gates()
+            if keys and self.drained < 4000:
+                self.drained += 1
+                key = rng.choice(keys) if rng.random() < 0.7 else keys[0]
+                st = {"op": "gate", "key": list(key)}
+                if rng.random() < 0.03 and key[0] == "w":
+                    st["how"] = "x"
+                self.queue.append({"op": "idle"} if rng.random() < 0.5 else {"op": "run", "n": rng.choice([1, 2, 5])})
+                return st
+            self.tail = [{"op": "idle"}, {"op": "read"}, {"op": "flush", "p": 0, "rex": 1}, {"op": "idle"}, {"op": "read"}]
+            if rng.random() < 0.5:
+                self.tail += [{"op": "gather", "p": 0, "rex": 1}, {"op": "idle"}]
+        if self.tail:
+            return self.tail.pop(0)
+        return None
